@@ -160,10 +160,14 @@ Variable maxl : nat.
 Definition etc_passwd : path := mkPath false ["etc"; "passwd"] false.
 Definition etc_group : path := mkPath false ["etc"; "group"] false.
 
+(* targetHomedir: filepath.Clean(ue.HomeDir) since fix 82f3aa3 (the flag is read from the source) *)
+Definition home_path (home : string) : path :=
+  if home_is_cleaned then pclean (path_of home) else path_of home.
+
 (* one iteration of the home loop *)
 Definition ensure_home (f : fs) (e : user_entry) : fres fs :=
   if String.eqb (ue_home e) no_home then FOk f else
-  let h := path_of (ue_home e) in
+  let h := home_path (ue_home e) in
   match stat maxl f h with
   | FOk n => if is_dir n then FOk f else FErr
   | FNotExist =>
